@@ -11,10 +11,19 @@
 // the other shipped back end: everything as for LIFE_NOOP (which this define implies), the sandbox type is
 // rlbox_dylib_sandbox bound to libc.so.6 (never called into: the guest functions of this driver are looked up statically)
 #  define LIFE_NOOP
+// (the back end's table of entry points is inspected by the "occ" operation: private members made visible to this driver)
+#  define private public
+#  define protected public
 #  include "rlbox_dylib_sandbox.hpp"
+#  undef private
+#  undef protected
 using Sbx = rlbox::rlbox_dylib_sandbox;
 #elif defined(LIFE_NOOP)
+#  define private public
+#  define protected public
 #  include "rlbox_noop_sandbox.hpp"
+#  undef private
+#  undef protected
 using Sbx = rlbox::rlbox_noop_sandbox;
 #else
 #  include "verif_sandbox.hpp"
@@ -184,7 +193,7 @@ static std::string run_case(const toks_t& t)
 #endif
         } else if (c == "go" && (owners[std::stoi(o[1])].is_unregistered() || !created[own_sb[std::stoi(o[1])]])) {
           out += owners[std::stoi(o[1])].is_unregistered() ? "go=dead" : "go=notcreated";
-        } else if ((c == "l" || c == "il" || c == "gs" || c == "lb" || c == "ilb" || c == "fa") && !created[std::stoi(o[1])]) {
+        } else if ((c == "l" || c == "il" || c == "gs" || c == "lb" || c == "ilb" || c == "fa" || c == "occ") && !created[std::stoi(o[1])]) {
           // invoking / looking up on a sandbox that is not created is outside the API contract: not exercised
           out += c + "=notcreated";
         } else if (c == "l" || c == "il") {
@@ -262,6 +271,13 @@ static std::string run_case(const toks_t& t)
           owners[j] = std::move(owners[j2]);
           if (j != j2) own_sb[j] = own_sb[j2];
           out += "ma=ok";
+        } else if (c == "occ") {
+          // how many entry points the back end of sandbox i has in use (they must be exactly the live registrations)
+          int i = std::stoi(o[1]);
+          auto impl = sb[i]->get_sandbox_impl();
+          int n = 0;
+          for (auto k : impl->callback_unique_keys) if (k != nullptr) n++;
+          out += "occ=" + std::to_string(n);
         } else if (c == "q") {
           out += std::string("q=") + (owners[std::stoi(o[1])].is_unregistered() ? "1" : "0");
         } else if (c == "go") {
